@@ -788,7 +788,16 @@ func genJS(r *core.Rand, gobSafe bool) JS {
 		j.C = []float64{}
 	}
 	if r.Bool() {
-		j.D = map[string]int64{"k'1": int64(r.Intn(100)), "é": -1}
+		// records differ in their key sets (a map that is merged into instead of replaced shows)
+		j.D = map[string]int64{}
+		for _, k := range []string{"k'1", "é", "zz"} {
+			if r.Bool() {
+				j.D[k] = int64(r.Intn(100)) - 1
+			}
+		}
+		if len(j.D) == 0 {
+			j.D["k'1"] = -1
+		}
 	} else if !gobSafe && r.Bool() {
 		j.D = map[string]int64{}
 	}
@@ -863,7 +872,13 @@ func genBase(r *core.Rand, l *leaf, t reflect.Type, nonZero bool) reflect.Value 
 				case 1:
 					v.Set(reflect.ValueOf(map[string]int64{}))
 				default:
-					v.Set(reflect.ValueOf(map[string]int64{"a": genInt(r, 64), "b'": 0}))
+					mp := map[string]int64{"a": genInt(r, 64)}
+					for _, k := range []string{"b'", "c c"} {
+						if r.Bool() {
+							mp[k] = int64(r.Intn(3))
+						}
+					}
+					v.Set(reflect.ValueOf(mp))
 				}
 			case tOf(JS{}):
 				if !r.Chance(1, 5) {
@@ -876,11 +891,17 @@ func genBase(r *core.Rand, l *leaf, t reflect.Type, nonZero bool) reflect.Value 
 				}
 			case tOf([]int64(nil)):
 				if !r.Chance(1, 4) {
-					v.Set(reflect.ValueOf([]int64{genInt(r, 64), 0, -1}))
+					v.Set(reflect.ValueOf([]int64{genInt(r, 64), 0, -1, 7, genInt(r, 8)}[:r.Range(1, 5)]))
 				}
 			case tOf(map[string]string(nil)):
 				if !r.Chance(1, 4) {
-					v.Set(reflect.ValueOf(map[string]string{"k": genString(r), "": "e"}))
+					mp := map[string]string{"k": genString(r)}
+					for _, k := range []string{"", "x y", "é'"} {
+						if r.Bool() {
+							mp[k] = "e" + k
+						}
+					}
+					v.Set(reflect.ValueOf(mp))
 				}
 			default:
 				panic("genBase: serializer type " + t.String())
